@@ -887,9 +887,16 @@ def _coerce_to_pattern_ast_BinOp(
         return f"op must be '+', '-' or '|', not {ast.op.__class__.__name__}"
 
     right = ast.right
+    left = ast.left
 
-    if right.__class__ is Starred:
+    if right.__class__ is Starred or left.__class__ is Starred:
         return 'cannot have Starred'
+
+    pat_left = _AST_COERCE_TO_PATTERN_FUNCS.get(  # left first, source edits there (parentheses removed) move what is to the right, whose new nodes must be made after that
+        left.__class__, _coerce_to_pattern_ast_ret_empty_str)(left, is_FST, options, parse_params)
+
+    if isinstance(pat_left, str):
+        return pat_left
 
     pat_right = _AST_COERCE_TO_PATTERN_FUNCS.get(
         right.__class__, _coerce_to_pattern_ast_ret_empty_str)(right, is_FST, options, parse_params)
@@ -898,17 +905,6 @@ def _coerce_to_pattern_ast_BinOp(
         return pat_right
 
     pat_right = pat_right[0]
-    left = ast.left
-
-    if left.__class__ is Starred:
-        return 'cannot have Starred'
-
-    pat_left = _AST_COERCE_TO_PATTERN_FUNCS.get(
-        left.__class__, _coerce_to_pattern_ast_ret_empty_str)(left, is_FST, options, parse_params)
-
-    if isinstance(pat_left, str):
-        return pat_left
-
     pat_left = pat_left[0]
     pat_left_cls = pat_left.__class__
 
@@ -1820,6 +1816,9 @@ def _coerce_to_expr_ast_MatchOr(
         f = ast.f
         lines = f.root._lines
         _, _, ast_end_ln, ast_end_col = f.loc
+        start_ln, start_col, _, _ = patterns[0].f.pars()  # the inner BinOps start at the opening parentheses of the first element, if any
+        start_lineno = start_ln + 1
+        start_col_offset = lines[start_ln].c2b(start_col)
 
     for pat in patterns[1:]:
         right = _AST_COERCE_TO_EXPR_FUNCS.get(
@@ -1837,7 +1836,7 @@ def _coerce_to_expr_ast_MatchOr(
             _, _, ln, col = pat.f.loc
             end_ln, end_col = next_delims(lines, ln, col, ast_end_ln, ast_end_col)[-1]
 
-            ret = BinOp(left=ret, op=BitOr(), right=right, lineno=ret.lineno, col_offset=ret.col_offset,
+            ret = BinOp(left=ret, op=BitOr(), right=right, lineno=start_lineno, col_offset=start_col_offset,
                         end_lineno=end_ln + 1, end_col_offset=lines[end_ln].c2b(end_col))
 
     if is_FST:  # need this because of parentheses
